@@ -8,7 +8,24 @@ import subprocess
 import sys
 import tempfile
 
-VERIF = os.path.dirname(os.path.dirname(os.path.abspath(__file__)))
+VERIF_LIVE = os.path.dirname(os.path.dirname(os.path.abspath(__file__)))
+# The checks run from a snapshot of the COMMITTED /verif (git worktree), so that edits in progress in the working tree
+# cannot influence an evaluation; the build cache is shared (content addressed).  VERIF_EVAL_LIVE=1 uses the working tree.
+snap = None
+if os.environ.get("VERIF_EVAL_LIVE") == "1":
+    VERIF = VERIF_LIVE
+else:
+    snap = tempfile.mkdtemp(prefix="bsverif-snap-")
+    os.rmdir(snap)
+    subprocess.run("git -C %s worktree add -q --detach %s HEAD" % (VERIF_LIVE, snap), shell=True, check=True)
+    os.symlink(os.path.join(VERIF_LIVE, ".cache"), os.path.join(snap, ".cache"))
+    VERIF = snap
+import atexit
+def _cleanup():
+    if snap:
+        subprocess.run("git -C %s worktree remove --force %s" % (VERIF_LIVE, snap), shell=True, stdout=subprocess.DEVNULL, stderr=subprocess.DEVNULL)
+        shutil.rmtree(snap, ignore_errors=True)
+atexit.register(_cleanup)
 args = sys.argv[1:]
 for i in range(0, len(args), 2):
     cid, patch = args[i], os.path.abspath(args[i + 1])
